@@ -343,5 +343,10 @@ pub fn gen_c07(rng: &mut Rng, n: usize, sink: &mut Sink) {
         if rng.chance(1, 3) {
             sink.exec(&format!("abi.msgtype {}", h(&bs)));
         }
+        if rng.chance(1, 4) {
+            // the real encoder followed by the real decoder, on values including the integer boundaries
+            let f2 = rand_fields(rng, ty, true);
+            sink.exec(&format!("abi.rt {} {}", ty, f2.iter().map(|f| h(f)).collect::<Vec<_>>().join(" ")));
+        }
     }
 }
